@@ -118,6 +118,7 @@ def cost(g):
 def run(tier):
     chk = Check(PROP, tier)
     chk.model("MC_Vectors")
+    chk.model("MC_GcmToy", cfg="MC_GcmToy_quick.cfg" if tier == "quick" else "MC_GcmToy.cfg", timeout=3000)
     chk.exec_and_validate("T_GCM", gen(chk, tier), keyfn, cost=cost, accel=True, pure_budget=14000000)
     return chk.finish(
         "model_checking",
